@@ -52,6 +52,12 @@ class C13:
         if lens:
             truth['z'] = rfloat(rng, 2, 6, 3)
             truth['lens_angle'] = rfloat(rng, 0.7, 1.0, 3)
+        # a region cut out of a larger frame keeps the frame's coordinates
+        shift = None
+        if rng.random() < 0.4:
+            shift = [rfloat(rng, 0.3, 5, 3), rfloat(rng, 0.3, 5, 3)]
+            truth['x'] = round(truth['x'] + shift[0], 6)
+            truth['y'] = round(truth['y'] + shift[1], 6)
         start = rng.choice(['truth', 'perturbed', 'perturbed'])
         full = rng.random() < 0.5          # x, y, z, r, alpha all free
         free = ['x', 'y', 'z', 'r', 'alpha'] if full else \
@@ -104,7 +110,8 @@ class C13:
 
         def setup():
             state['det'] = b.emit('detector_grid', {
-                'shape': n, 'spacing': spacing, 'optics': OPT}, store='det')
+                'shape': n, 'spacing': spacing, 'optics': OPT,
+                'shift': shift}, store='det')
             state['sc'] = b.emit('sphere', sc_args, store='sc')
             state['mo'] = b.emit('model', {
                 'kind': 'alpha', 'sc': state['sc'], 'alpha': v('alpha'),
@@ -198,11 +205,11 @@ class C13:
                 continue
             state['res'].append(r)
             if rng.random() < 0.8:
-                b.emit('result_check', {'res': r},
+                b.emit('result_check', {'res': r, 'data': data},
                        tags={'k': 'result_check', 'check': True})
             if rng.random() < 0.35:
                 path = 'result_%d.h5' % len(b.events)
-                b.emit('result_check', {'res': r},
+                b.emit('result_check', {'res': r, 'data': data},
                        tags={'k': 'result_check', 'check': True,
                              'pair': path, 'side': 'before'})
                 b.emit('hp_save', {'obj': r, 'path': path},
@@ -373,6 +380,37 @@ class C13:
                 'reported parameters: %s' % canon.diff(
                     p['hologram'], p['forward_at_pars']),
                 sig='C13.result:hologram'))
+            return
+        mf = p.get('model_forward_grid')
+        if O.is_da(mf) and O.is_da(p['hologram']):
+            # ... and the model's forward calculation on the fitted image
+            # (same pixels, same physical coordinates)
+            ex.stats['oracle_sim'] += 1
+            hm, _ = O.point_map(p['hologram'])
+            fm, _ = O.point_map(mf)
+            bad = None
+            if sorted(hm) != sorted(fm):
+                bad = 'is on other coordinates than the fitted image ' \
+                    '(%r ... vs %r ...)' % (sorted(hm)[0], sorted(fm)[0])
+            else:
+                err = max(float(np.max(np.abs(hm[k_] - fm[k_])))
+                          for k_ in fm)
+                if err > 1e-9:
+                    bad = 'differs by %.3g' % err
+            if bad:
+                ex.add(violation(
+                    'C13.result', ev['id'],
+                    'best-fit hologram %s from model.forward at the '
+                    'reported parameters' % bad,
+                    sig='C13.result:hologram-vs-model'))
+                return
+        elif isinstance(mf, dict) and '__dict__' in mf and \
+                'exc' in dict(mf['__dict__']):
+            ex.add(violation(
+                'C13.result', ev['id'],
+                'model.forward at the reported parameters raised %s' %
+                dict(mf['__dict__'])['exc'],
+                sig='C13.result:model-forward-exc'))
             return
         if canon.digest(p['max_lnprob']) != \
                 canon.digest(p['lnposterior_at_pars']):
